@@ -153,6 +153,37 @@ def run_job(job):
     return events
 
 
+def padded_minimize_probe(seed):
+    """Variance minimisation on 4-receptor / 3-source systems with a baseline and one strongly out-of-gamut row, over all
+    batch sizes (the padded batches in particular): no call may fail and every row must agree with its batch-size-one
+    result (no oracle needed)."""
+    import_dreye()
+    from dreye.api.optimize.lsq_linear import lsq_linear_minimize
+    bad, n = [], 0
+    for sd in [3, 11, 12]:          # fixed systems (the finding recorded for system 3 is identified by it)
+        rng = np.random.default_rng(sd)
+        A = np.abs(rng.normal(size=(4, 3))) + 0.1
+        lb, ub, base = np.zeros(3), np.array([1.0, 2.0, 0.5]), np.array([0.05, 0.8, 0.2, 1.5])
+        rng2 = np.random.default_rng(1 if sd == 3 else sd + 1)
+        for nrows in (2, 3):
+            B = rng2.uniform(lb, ub, size=(nrows, 3)) @ A.T + base
+            B[-1] *= 3
+            ref = None
+            for bs in list(range(1, nrows + 4)) + ["full"]:
+                n += 1
+                w = dict(model="minimize", probe="padded out-of-gamut", system=sd, N=nrows, bs=bs)
+                try:
+                    X, Bp, _ = lsq_linear_minimize(A, B.copy(), lb=lb, ub=ub, baseline=base, batch_size=bs, l2_eps=1e-4, return_pred=True)
+                except Exception as ex:
+                    bad.append(("C05.no-failure", dict(exc=type(ex).__name__, **w), None, repr(ex)[:160], dict(seed=sd)))
+                    continue
+                if ref is None:
+                    ref = np.asarray(Bp, float)
+                elif np.max(np.abs(np.asarray(Bp, float) - ref)) > TOL / SCALE:
+                    bad.append(("C05.batch-invariance", w, ref.tolist(), np.asarray(Bp, float).tolist(), dict(seed=sd)))
+    return bad, n
+
+
 def run(ctx):
     thorough = ctx.tier == "thorough"
     # (1) the design: schedule state machine
@@ -197,6 +228,10 @@ def run(ctx):
     jobs += [("u23", "wide", "minimize", nmax, part, 2) for part in range(2)]
     for m in ("gaussian", "poisson", "minimize"):
         jobs += [("u23", "verbose", m, nmax, part, 2) for part in range(2)]
+    pbad, pn = padded_minimize_probe(ctx.seed)
+    for clause, where, exp, obs, case in pbad:
+        ctx.violation(clause, where, dict(probe=case), exp, obs)
+    ctx.count("padded out-of-gamut variance-minimisation probe calls", pn)
     parts = pmap(run_job, jobs, chunksize=1)
     events = [e for p in parts for e in p]
     rids = {}
